@@ -14,7 +14,7 @@ MCTriples == {<<3, 4, 5>>}
 MCMults   == {1, 2}
 MCOrigins == {<<0, 0>>}
 MCRots    == {NoArg, <<-3, 4, 5>>}
-MCPsfs    == {NoArg, <<2, 1>>, <<1, 2>>}
+MCPsfs    == {NoArg, <<1, 2>>}
 MCHts     == {None, 0, 162}
 MCKs      == {1, 7}
 MCCells   == {<<t, 101325, h, w, c, wl>> : t \in {-20, 0, 15}, h \in {None, 0, 50}, w \in {None, 0, 10},
@@ -55,4 +55,15 @@ GTOrigins == {<<0, 0>>, <<500, 500>>, <<5000000, -8000000>>, <<-9990000, 9990000
 GQRots    == {NoArg, <<1, 0, 1>>, <<-3, 4, 5>>, <<-12, -5, 13>>}
 GTRots    == {NoArg, <<0, 1, 1>>, <<1, 0, 1>>, <<0, -1, 1>>, <<-3, 4, 5>>, <<-12, -5, 13>>, <<15, -8, 17>>}
 GPsfs     == {NoArg, <<2, 1>>, <<1, 2>>, <<9996, 10000>>}
+
+\* ---- self-test of the fixed-point sine / cosine, evaluated once at start-up ----
+A345 == [neg |-> FALSE, mag |-> <<9685, 212, 5844, 9764, 8698, 36>>]     \* atan2(3, 4) = 36.8698 9764 5844 0212 9685 degrees
+ASSUME Within(SinCosDeg(FromInt(30))[1], FromRat(1, 2), Dec(100, 5))
+ASSUME Within(SinCosDeg(FromInt(210))[1], FromRat(-1, 2), Dec(100, 5))
+ASSUME Within(SinCosDeg(FromInt(-30))[1], FromRat(-1, 2), Dec(100, 5))
+ASSUME Within(SinCosDeg(FromInt(120))[2], FromRat(-1, 2), Dec(100, 5))
+ASSUME Within(SinCosDeg(FromInt(90))[1], One, Dec(100, 5)) /\ Within(SinCosDeg(FromInt(270))[2], Zero, Dec(100, 5))
+ASSUME Within(SinCosDeg(FromInt(89))[1], SinCosDeg(FromInt(1))[2], Dec(100, 5))
+ASSUME AngleIsDir(A345, <<3, 4, 5>>, Dec(10, 5)) /\ ~AngleIsDir(Add(A345, Dec(1, 2)), <<3, 4, 5>>, Dec(1, 3))
+ASSUME \A d \in DirsOf(GTTriples) : IsDir(d)
 =============================================================================
